@@ -891,7 +891,12 @@ fn parse_chain(e: &syn::Expr) -> Option<(ChainSrc, Vec<Adapter>, Consumer)> {
 
 impl<'a> LoopPass<'a> {
     /// R3: desugar one iterator chain into a single index loop.
-    fn build_chain(&mut self, src: ChainSrc, adapters: Vec<Adapter>, consumer: Consumer, mode: &str) -> Result<syn::Expr, String> {
+    fn build_chain(&mut self, src: ChainSrc, adapters: Vec<Adapter>, consumer: Consumer, mode_full: &str) -> Result<syn::Expr, String> {
+        // mode syntax: "ref" | "val" optionally followed by ":<element type of the collected Vec>"
+        let (mode, elem_ty): (&str, Option<syn::Type>) = match mode_full.find(':') {
+            Some(i) => (&mode_full[..i], Some(syn::parse_str(&mode_full[i + 1..]).map_err(|e| format!("bad recipe: chain element type: {}", e))?)),
+            None => (mode_full, None),
+        };
         let k = self.loops;
         self.loops += 1;
         let s_id = syn::Ident::new(&format!("__s{}", k), Span::call_site());
@@ -1005,10 +1010,14 @@ impl<'a> LoopPass<'a> {
             }
             Consumer::Collect => {
                 let r_id = syn::Ident::new(&format!("__acc{}", k), Span::call_site());
+                let decl: TokenStream = match &elem_ty {
+                    Some(t) => quote!(let mut #r_id: Vec<#t> = Vec::new();),
+                    None => quote!(let mut #r_id = Vec::new();),
+                };
                 syn::parse_quote!({
                     let #s_id = #seq_init;
                     let mut #i_id: usize = 0;
-                    let mut #r_id = Vec::new();
+                    #decl
                     while #i_id < #s_id.len() {
                         #marker
                         #(#body)*
